@@ -121,6 +121,17 @@ class Session:
             self.pf[arg[0]].inverted = not self.pf[arg[0]].inverted
         elif a == "toginvalid":
             cfg["remove invalid events"] = not cfg["remove invalid events"]
+        elif a == "addfeature":
+            # a scalar (temporary) feature with invalid values at every
+            # second event arrives on the open dataset
+            import dclab
+            from dclab import definitions as dfn
+            if not dfn.feature_exists("verif_extra"):
+                dclab.register_temporary_feature("verif_extra")
+            n_ = len(self.ds)
+            vals = np.arange(n_, dtype=float) + 1.0
+            vals[1::2] = [np.nan, np.inf, -np.inf][n_ % 3]
+            dclab.set_temporary_feature(self.ds, "verif_extra", vals)
         elif a == "togenable":
             cfg["enable filters"] = not cfg["enable filters"]
         elif a == "setlimit":
